@@ -16,10 +16,9 @@ _PROG = {}
 
 
 def program(ctx) -> Program:
-    k = id(ctx.src)
-    if k not in _PROG:
-        _PROG[k] = Program(ctx.src)
-    return _PROG[k]
+    if getattr(ctx.src, "_verif_prog", None) is None:
+        ctx.src._verif_prog = Program(ctx.src)
+    return ctx.src._verif_prog
 
 
 def identity_model(ctx):
